@@ -21,10 +21,10 @@ namespace OpenVolumeMesh { namespace verif_drv {
   bool S##_eq(const V &a, const V &b) { return a == b; } \
   bool S##_ne(const V &a, const V &b) { return a != b; } \
   bool S##_lt(const V &a, const V &b) { return a < b; } \
-  SC S##_dot(const V &a, const V &b) { return a | b; } \
-  SC S##_dot_free(const V &a, const V &b) { return dot(a, b); } \
-  SC S##_dot_member(const V &a, const V &b) { return a.dot(b); } \
-  SC S##_sqrnorm(const V &a) { return a.sqrnorm(); } \
+  auto S##_dot(const V &a, const V &b) { return a | b; } \
+  auto S##_dot_free(const V &a, const V &b) { return dot(a, b); } \
+  auto S##_dot_member(const V &a, const V &b) { return a.dot(b); } \
+  auto S##_sqrnorm(const V &a) { return a.sqrnorm(); } \
   SC S##_l1_norm(const V &a) { return a.l1_norm(); } \
   SC S##_l8_norm(const V &a) { return a.l8_norm(); } \
   SC S##_max(const V &a) { return a.max(); } \
@@ -47,9 +47,18 @@ DRV(i3, Vec3i, int)
 DRV(d3, Vec3d, double)
 DRV(i2, Vec2i, int)
 DRV(i4, Vec4i, int)
+DRV(c3, Vec3c, signed char)
+DRV(s3, Vec3s, short)
+
 Vec3i i3_cross(const Vec3i &a, const Vec3i &b) { return a % b; }
 Vec3i i3_cross_free(const Vec3i &a, const Vec3i &b) { return cross(a, b); }
 Vec3i i3_cross_member(const Vec3i &a, const Vec3i &b) { return a.cross(b); }
+auto c3_cross(const Vec3c &a, const Vec3c &b) { return a % b; }
+auto c3_cross_free(const Vec3c &a, const Vec3c &b) { return cross(a, b); }
+auto c3_cross_member(const Vec3c &a, const Vec3c &b) { return a.cross(b); }
+auto s3_cross(const Vec3s &a, const Vec3s &b) { return a % b; }
+auto s3_cross_free(const Vec3s &a, const Vec3s &b) { return cross(a, b); }
+auto s3_cross_member(const Vec3s &a, const Vec3s &b) { return a.cross(b); }
 Vec3d d3_cross(const Vec3d &a, const Vec3d &b) { return a % b; }
 Vec3i i3_make(int x, int y, int z) { return Vec3i(x, y, z); }
 Vec3d d3_from_i3(const Vec3i &a) { return Vec3d(a); }
